@@ -204,7 +204,9 @@ func c10CheckSchedule(c *Case, a, b c10Req, sa, sb soloInfo, sc c10Sched) []Viol
 		vs = append(vs, viol(c, "C10/response-differs", "under schedule %+v the response to %s differs from its solo response: %s", sc, b.Name, firstDiff(string(sb.out), string(outB))))
 	}
 	if len(vs) == 0 && run.Step != sa.steps+sb.steps {
-		vs = append(vs, viol(c, "C10/step-count-differs", "schedule %+v of (%s, %s) executed %d steps, the solo runs %d+%d: the executions took different paths", sc, a.Name, b.Name, run.Step, sa.steps, sb.steps))
+		// different paths with identical responses (e.g. a correctly synchronised lazy initialisation) are not a
+		// violation of the statement; counted so that the evidence shows it
+		stat("schedules_with_different_step_count_but_equal_responses")
 	}
 	if len(vs) == 0 {
 		stat("traces_validated")
